@@ -73,7 +73,7 @@ static int d_ctl_0(void *o,int req){
 
 /* packet slots: for the plain decoder one table for all bases, for multistream/projection one per layout group */
 typedef struct { unsigned char *data; int len; int dur48; char what[80]; } pslot;
-#define MAXSLOT 20
+#define MAXSLOT 40
 static pslot g_pk[MAXGRP][MAXSLOT]; static int g_npk[MAXGRP];
 static pslot *slot_put(int grp,int s,const unsigned char *d,int len,int dur48,const char *what){
    pslot *p=&g_pk[grp][s]; p->data=malloc(len?len:1); memcpy(p->data,d,len); C12_DEFINED(p->data,len); p->len=len; p->dur48=dur48; snprintf(p->what,sizeof p->what,"%s",what); if(s>=g_npk[grp]) g_npk[grp]=s+1; return p;
@@ -82,7 +82,18 @@ static pslot *slot_put(int grp,int s,const unsigned char *d,int len,int dur48,co
 /* op: OP_IO a=slot (or -1 for PLC), b=decode_fec, c=format (0 int16, 1 float), d=PLC duration x0.1 ms */
 static void d_apply(void *obj,int b,const opdef *op,obs_t *o){
    const dbase *d=&DBS[b];
-   if (op->type==OP_IO){
+   if (op->type==OP_IO && op->a>=0 && op->d>0){
+      /* macro op (ONE alphabet element): op->d consecutive packets of a steadily voiced SILK stream.  The DFS depth cannot reach "several voiced
+         frames, then a loss" with single-packet ops; as one element it is met from every prefix and before every suffix (the PLC / FEC ops are
+         separate elements, so each of them runs over its own freshly painted stack garbage). */
+      int k,n=0; uint64_t h=77;
+      for(k=0;k<op->d;k++){ const pslot *p = k<op->d? &g_pk[g_grp[b]][op->a+k] : NULL; const pslot *p0=&g_pk[g_grp[b]][op->a];
+         int fsz=(int)((long)p0->dur48*d->fs/48000); size_t bytes=(size_t)fsz*d->ch*sizeof(short); void *pcm=malloc(bytes?bytes:1);
+         n=opus_decode(obj,p?p->data:NULL,p?p->len:0,pcm,fsz,0);
+         h=mc_mix(h,(uint64_t)(opus_int32)n); if(n>0){ check_out_init(pcm,(size_t)n*d->ch*sizeof(short),"pcm"); h=mc_mix(h,mc_hash(pcm,(size_t)n*d->ch*sizeof(short),5)); }
+         free(pcm); if(n<=0) break; }
+      o->ret=n; if(n>0){ o->outlen=n; o->outh=h; }
+   } else if (op->type==OP_IO){
       const pslot *p = op->a>=0? &g_pk[g_grp[b]][op->a] : NULL;
       int dur48 = p? p->dur48 : op->d*48/10; int fsz=(int)((long)dur48*d->fs/48000), n; size_t bytes=(size_t)fsz*d->ch*(op->c?sizeof(float):sizeof(short));
       void *pcm=malloc(bytes?bytes:1);                     /* exact-size heap block: ASan redzones on both sides */
@@ -120,6 +131,17 @@ static int add_pkt(const char *stream,int minidx,const char *label){
    { char nm[56]; snprintf(nm,sizeof nm,"decode(%s)",label); add_op(nm,OP_IO,g_nslot,0,0,0); }
    return g_nslot++;
 }
+/* six consecutive packets (after two warm-up packets) of a steadily voiced harmonic signal coded SILK-only by the frozen encoder */
+static void add_voiced_run(int Fs,double f0,int rate,int bw,const char *label){
+   int err=0,i,fsz=Fs/50,first=g_nslot; short *pcm=malloc(sizeof(short)*fsz); unsigned char out[1500]; long t=0; char nm[56];
+   OpusEncoder *e=ref_opus_encoder_create(Fs,1,OPUS_APPLICATION_VOIP,&err); if(!e){ fprintf(stderr,"c12: ref encoder create failed\n"); exit(2); }
+   ref_opus_encoder_ctl(e,OPUS_SET_BITRATE(rate)); ref_opus_encoder_ctl(e,OPUS_SET_BANDWIDTH(bw)); ref_opus_encoder_ctl(e,OPUS_SET_FORCE_MODE(REF_MODE_SILK_ONLY)); ref_opus_encoder_ctl(e,OPUS_SET_SIGNAL(OPUS_SIGNAL_VOICE));
+   for(i=0;i<8;i++){ int k,n,h; for(k=0;k<fsz;k++,t++){ double x=0; for(h=1;h<=12&&h*f0<0.45*Fs;h++) x+=sin(2*M_PI*h*f0*t/Fs+0.3*h)/h; pcm[k]=(short)lrint(7000.0*x); }
+      n=ref_opus_encode(e,pcm,fsz,out,sizeof out); if(n<=2){ fprintf(stderr,"c12: voiced run: ref encode returned %d\n",n); exit(2); }
+      if (i>=2){ char w[80]; snprintf(w,sizeof w,"%s #%d, %d bytes, TOC 0x%02x",label,i,n,out[0]); slot_put(0,g_nslot++,out,n,960,w); } }
+   ref_opus_encoder_destroy(e); free(pcm);
+   snprintf(nm,sizeof nm,"run(%s x6)",label); add_op(nm,OP_IO,first,0,0,6);
+}
 static void alphabet_dec(int alpha){
    int lbrr,celt,hyb;
    corpus_build(&CO,0);
@@ -141,6 +163,8 @@ static void alphabet_dec(int alpha){
       add_pkt("celt bw1 50ms/10 ch2 r0",3,"CELT WB 5ms stereo");
       add_pkt("silk nb 60ms fec ch2",3,"SILK NB 60ms stereo +LBRR");
    }
+   if (alpha>=0) add_voiced_run(16000,110.0,20000,OPUS_BANDWIDTH_WIDEBAND,"SILK WB voiced f0=110");
+   if (alpha>=1) add_voiced_run(8000,140.0,12000,OPUS_BANDWIDTH_NARROWBAND,"SILK NB voiced f0=140");
    add_op("decode_float(hybrid FB 20ms stereo)",OP_IO,hyb,0,1,0);
    if (alpha>=1) add_op("decode_float(CELT FB 20ms stereo)",OP_IO,celt,0,1,0);
    add_op("decode_fec(SILK WB 20ms mono +LBRR)",OP_IO,lbrr,1,0,0);
